@@ -280,7 +280,8 @@ Section Backup.
     seen <- already_seen p ;;
     match seen with
     | None => ret tt
-    | Some _ =>
+    | Some None => delete_info p   (* did not exist: there is no copy *)
+    | Some (Some _) =>
         r <- try_ (a_lstat backup p) ;;
         match r with
         | Err e => if is_not_found e then delete_info p else fail e
